@@ -111,6 +111,10 @@ pub fn templates() -> Vec<String> {
         "#( 3 5 * #) 1 +",
         ": f [ #( 3 3 * #) ] ; f 0 get",
         "#( 1 const c #) c c +",
+        // blocks that look at their own floor (what is below belongs to the surrounding program)
+        "#( depth #)",
+        "#( 1 + #) 2",
+        "enum E : A : B endenum A B",
         // strings, collections
         "[ 1 \"ss\" [ 15 ] ] concat length",
         "[ 3 1 2 ] sort reverse 0 get",
